@@ -360,12 +360,81 @@ def _shipped_task(task):
     return acc
 
 
+# ---------------------------------------------------------------------------
+# elements that outlive the name bound to their group: a helper builds IntegerGroup(p, q, g), returns only elements, the group
+# object is unreferenced by the caller and the garbage collector runs - the elements must remain full elements
+
+def _orphans(pqg):
+    L = T.lib()
+    p, q, g = pqg
+    grp = L.groups.IntegerGroup(p=p, q=q, g=g)
+    arb = None
+    for seed in (b"M", b"N", b"a", b"b", b"c", b"d", b"e"):          # some seeds are construction-degenerate on toy groups
+        try:
+            arb = grp.arbitrary_element(seed)
+            break
+        except AssertionError:
+            continue
+    return [grp.Base.scalarmult(k) for k in range(q + 1)], grp.Base, arb
+
+
+def orphan_run(pqg):
+    import gc
+    p, q, g = pqg
+    els, base, arb = _orphans(pqg)
+    gc.collect()
+    gc.collect()
+    out = {}
+    out["encodings"] = T.observe(lambda: [int.from_bytes(e.to_bytes(), "big") for e in els])
+    out["add"] = T.observe(lambda: [int.from_bytes(els[i].add(els[j]).to_bytes(), "big") for i in range(len(els)) for j in (1, 2, q - 1)])
+    out["scalarmult"] = T.observe(lambda: [int.from_bytes(els[i].scalarmult(n).to_bytes(), "big") for i in (1, 2) for n in (0, 1, 2, q - 1, q, -1)])
+    out["arbitrary"] = T.observe(lambda: int.from_bytes(arb.scalarmult(1).to_bytes(), "big")) if arb is not None else ("ok", None)
+    out["equal-self"] = T.observe(lambda: all(els[i] == base.scalarmult(i) for i in range(1, q)))
+    return out
+
+
+def orphan_expected(pqg):
+    p, q, g = pqg
+    from ..ref import intgroup
+    R = intgroup.RefIntGroup(p, q, g) if hasattr(intgroup, "RefIntGroup") else None
+    P = lambda k: pow(g, k % q, p)
+    els = [P(k) for k in range(q + 1)]
+    return {"encodings": ("ok", els), "add": ("ok", [els[i] * els[j] % p for i in range(len(els)) for j in (1, 2, q - 1)]),
+            "scalarmult": ("ok", [pow(els[i], n % q, p) for i in (1, 2) for n in (0, 1, 2, q - 1, q, -1)]), "equal-self": ("ok", True)}
+
+
+def _orphan_task(acc):
+    import gc
+    for pqg in ((23, 11, 2), (47, 23, 2), (59, 29, 3), (263, 131, 2)):
+        got = orphan_run(pqg)
+        exp = orphan_expected(pqg)
+        acc.n(states=pqg[1] + 1, transitions=5, traces=1)
+        for k, v in exp.items():
+            acc.seen(("orphans", pqg[0], k, got[k][0]))
+            if got[k] != v:
+                acc.violation("C13/int/elements-outlive-group-%s" % k,
+                              {"what": "elements of IntegerGroup(p=%d, q=%d, g=%d) whose group object is no longer referenced by the caller are not full elements any more (%s)" % (pqg + (k,)),
+                               "replay": {"fn": "orphans", "pqg": list(pqg), "what": k}, "expected": v, "observed": got[k]})
+        if got["arbitrary"][0] != "ok":
+            acc.violation("C13/int/elements-outlive-group-arbitrary", {"what": "arbitrary_element() of a group no longer referenced cannot be used", "replay": {"fn": "orphans", "pqg": list(pqg), "what": "arbitrary"},
+                          "expected": "element", "observed": got["arbitrary"]})
+    # two groups with the same residues: elements of different groups must not become equal once the groups are gone
+    a = _orphans((23, 11, 2))[1]
+    b = _orphans((47, 23, 2))[1]
+    gc.collect()
+    eq = T.observe(lambda: a == b)
+    if eq == ("ok", True):
+        acc.violation("C13/int/elements-outlive-group-equality", {"what": "the generators of Z_23^* and Z_47^* (same residue) compare equal after their groups were collected",
+                      "replay": {"fn": "orphans", "pqg": [23, 11, 2], "what": "cross-eq"}, "expected": False, "observed": eq})
+
+
 def run(tier, seed):
     acc = Acc()
     names = (C.SMALL_INT_QUICK + C.SMALL_ED_QUICK) if tier == "quick" else (C.SMALL_INT_ALL + C.SMALL_ED_ALL)
     names = sorted(names, key=lambda n: -T.hint(n).q if T.try_get(n)[0] else 0)
     tasks = [("small", (n, tier)) for n in names] + [("shipped", (n, seed)) for n in T.SHIPPED]
     core.pmerge(_dispatch, tasks, acc)
+    _orphan_task(acc)
     return acc
 
 
@@ -391,6 +460,13 @@ def _find(inst, desc):
 
 def replay(rec):
     r = T.unjson(rec["replay"])
+    if r.get("fn") == "orphans":
+        if r["what"] == "cross-eq":
+            import gc
+            a, b = _orphans((23, 11, 2))[1], _orphans((47, 23, 2))[1]
+            gc.collect()
+            return T.observe(lambda: a == b)
+        return orphan_run(tuple(r["pqg"]))[r["what"]]
     inst = T.build_inst(r["inst"])
     g, q = inst.group, inst.q
     c = r["call"]
